@@ -5,6 +5,7 @@ package core
 
 import (
 	"strconv"
+	"strings"
 
 	"com.tuntun.rangers/node/src/common"
 	"com.tuntun.rangers/node/src/middleware/log"
@@ -31,4 +32,41 @@ func VerifC01Execute(accountdb *account.AccountDB, block *types.Block, situation
 // VerifC01ReceiptsRoot is calcReceiptsTree.
 func VerifC01ReceiptsRoot(receipts types.Receipts) common.Hash {
 	return calcReceiptsTree(receipts)
+}
+
+// VerifC01Chain is what the contract executor needs from context["chain"] (BLOCKHASH).
+type VerifC01Chain interface {
+	GetBlockHash(height uint64) common.Hash
+}
+
+type verifC01TxLogger struct {
+	log.Logger
+	n    int
+	onTx func(i int)
+}
+
+func (l *verifC01TxLogger) Debugf(format string, params ...interface{}) {
+	if l.onTx != nil && strings.HasPrefix(format, "Execute %s, type") {
+		l.n++
+		l.onTx(l.n)
+	}
+	l.Logger.Debugf(format, params...)
+}
+
+// VerifC01ExecuteOpts = VerifC01Execute with two injections: chain (non-nil) replaces
+// context["chain"], i.e. the node's own block index the EVM's BLOCKHASH reads; onTx (non-nil) is
+// called when the loop starts executing its i-th transaction (i = 1, 2, …; right after the cast
+// deadline check of that iteration, at the "Execute %s, type:%d" log line).  Not for concurrent use:
+// the package logger is wrapped for the duration of the call.
+func VerifC01ExecuteOpts(accountdb *account.AccountDB, block *types.Block, situation string, chain VerifC01Chain, onTx func(i int)) (common.Hash, []common.Hash, []*types.Transaction, []*types.Receipt) {
+	vm := newVMExecutor(accountdb, block, situation)
+	if chain != nil {
+		vm.context["chain"] = chain
+	}
+	if onTx != nil {
+		plain := logger
+		logger = &verifC01TxLogger{Logger: plain, onTx: onTx}
+		defer func() { logger = plain }()
+	}
+	return vm.Execute()
 }
